@@ -290,6 +290,42 @@ CASES = [
     ("C20", "consume_partition", S, "mocks/consumer.go", "ConsumePartition", "if pc.consumed {", "if !pc.consumed {", "flipped test"),
     ("C20", "consume_partition", H, "mocks/consumer.go", "ConsumePartition", "pc.offset != AnyOffset && pc.offset != offset", "pc.offset != offset && pc.offset != AnyOffset", "swapped conjuncts"),
 
+    # ---------------------------------------------------------------- C10 (realDecoder primitive getters)
+    ("C10", "get_int32", S, "real_decoder.go", "getInt32", "if rd.remaining() < 4 {", "if rd.remaining() < 3 {", "bounds constant changed"),
+    ("C10", "get_varint", S, "real_decoder.go", "getVarint", "rd.off -= n", "rd.off += n", "overflow path moves the offset backwards"),
+    ("C10", "get_uvarint", S, "real_decoder.go", "getUVarint", "if n == 0 {", "if n <= 0 {", "overflow reported as insufficient data"),
+    ("C10", "get_array_length", S, "real_decoder.go", "getArrayLength", "if tmp > rd.remaining() {", "if tmp >= rd.remaining() {", "comparison > to >="),
+    ("C10", "get_array_length", S, "real_decoder.go", "getArrayLength", "tmp > 2*math.MaxUint16", "tmp > 4*math.MaxUint16", "array limit changed"),
+    ("C10", "get_array_length", S, "real_decoder.go", "getArrayLength", " || tmp < -1", "", "dropped negative-length test"),
+    ("C10", "get_compact_array_length", S, "real_decoder.go", "getCompactArrayLength", "if n-1 > uint64(rd.remaining()) {", "if n > uint64(rd.remaining()) {", "off by one"),
+    ("C10", "get_bool", S, "real_decoder.go", "getBool", "if b != 1 {", "if b < 1 {", "comparison != to <"),
+    ("C10", "get_raw_bytes", S, "real_decoder.go", "getRawBytes", "\tif length < 0 {\n\t\treturn nil, errInvalidByteSliceLength\n\t} else if length > rd.remaining() {", "\tif length > rd.remaining() {", "dropped negative-length test"),
+    ("C10", "get_raw_bytes", S, "real_decoder.go", "getRawBytes", "} else if length > rd.remaining() {", "} else if length >= rd.remaining() {", "comparison > to >="),
+    ("C10", "get_raw_bytes", H, "real_decoder.go", "getRawBytes", "if length < 0 {", "if 0 > length {", "mirrored comparison"),
+    ("C10", "get_string_length", S, "real_decoder.go", "getStringLength", "case n < -1:", "case n < 0:", "null length rejected"),
+    ("C10", "get_string_length", H, "real_decoder.go", "getStringLength", "case n > rd.remaining():", "case rd.remaining() < n:", "mirrored comparison"),
+    ("C10", "get_compact_string", S, "real_decoder.go", "getCompactString", "if length < 0 {", "if length < -1 {", "null compact string accepted"),
+    ("C10", "get_compact_nullable_string", S, "real_decoder.go", "getCompactNullableString", "} else if length > rd.remaining() {", "} else if length-1 > rd.remaining() {", "off by one"),
+    ("C10", "compact_int32_array_head", S, "real_decoder.go", "getCompactInt32Array", "uint64(rd.remaining()/4)", "uint64(rd.remaining())", "element width dropped from the bound"),
+    ("C10", "int32_array_head", S, "real_decoder.go", "getInt32Array", "if rd.remaining() < 4*n {", "if rd.remaining() < n {", "element width dropped from the bound"),
+    ("C10", "int64_array_head", S, "real_decoder.go", "getInt64Array", "\tif n < 0 {\n\t\treturn nil, errInvalidArrayLength\n\t}\n", "", "dropped negative-count test"),
+    ("C10", "string_array_head", S, "real_decoder.go", "getStringArray", "if rd.remaining() < 2*n {", "if rd.remaining() < n {", "minimum element size changed"),
+    ("C10", "peek", S, "real_decoder.go", "peek", "if rd.remaining() < offset+length {", "if rd.remaining() < length {", "offset dropped from the bound"),
+    ("C10", "peek_int8", S, "real_decoder.go", "peekInt8", "if rd.remaining() < offset+byteLen {", "if rd.remaining() <= offset+byteLen {", "comparison < to <="),
+    ("C10", "get_int32", S, "real_decoder.go", "getInt32", "rd.off += 4", "rd.off += 2", "offset advanced by the wrong width"),
+    ("C10", "get_varint", S, "real_decoder.go", "getVarint", "if n < 0 {", "if n < -1 {", "overflow test relaxed"),
+    ("C10", "get_uvarint", S, "real_decoder.go", "getUVarint", "rd.off -= n", "rd.off += n", "overflow path moves the offset backwards"),
+    ("C10", "get_compact_array_length", S, "real_decoder.go", "getCompactArrayLength", "return int(n) - 1, nil", "return int(n), nil", "length not decremented"),
+    ("C10", "get_bool", S, "real_decoder.go", "getBool", "if err != nil || b == 0 {", "if err != nil {", "false no longer accepted"),
+    ("C10", "get_string_length", S, "real_decoder.go", "getStringLength", "case n > rd.remaining():", "case n >= rd.remaining():", "comparison > to >="),
+    ("C10", "get_compact_string", S, "real_decoder.go", "getCompactString", "} else if length > rd.remaining() {", "} else if length >= rd.remaining() {", "comparison > to >="),
+    ("C10", "get_compact_nullable_string", S, "real_decoder.go", "getCompactNullableString", "if length < 0 {", "if length <= 0 {", "empty string decoded as null"),
+    ("C10", "compact_int32_array_head", S, "real_decoder.go", "getCompactInt32Array", "if n == 0 {", "if n == 1 {", "null marker changed"),
+    ("C10", "int32_array_head", S, "real_decoder.go", "getInt32Array", "if rd.remaining() < 4 {", "if rd.remaining() < 2 {", "bounds constant changed"),
+    ("C10", "int64_array_head", S, "real_decoder.go", "getInt64Array", "if rd.remaining() < 8*n {", "if rd.remaining() < 4*n {", "element width changed in the bound"),
+    ("C10", "string_array_head", S, "real_decoder.go", "getStringArray", "if rd.remaining() < 4 {", "if rd.remaining() <= 4 {", "comparison < to <="),
+    ("C10", "peek", S, "real_decoder.go", "peek", "off := rd.off + offset", "off := rd.off", "offset dropped from the range"),
+    ("C10", "peek_int8", S, "real_decoder.go", "peekInt8", "return -1, ErrInsufficientData", "return 0, ErrInsufficientData", "value returned with the error changed"),
 ]
 
 
